@@ -102,6 +102,12 @@ class Frame(Tok):
         Frame.n += 1
         Tok.__init__(self, "frame", label or "f%d" % Frame.n, parent=parent)
 
+    def field_view(self, e):
+        """what a direct read of a field of the scope sees (code that walks the chain itself instead of calling a method)"""
+        if e.get("name") == "parent":
+            return some(self.parent) if self.parent is not None else none()
+        return absint.UNKNOWN
+
 
 def contains(v, pred, depth=10):
     if depth < 0:
@@ -466,29 +472,36 @@ def trampoline_table(w):
     # the same with the real apply_scheme_procedure: the body's last form is a call, so the tail evaluator hands back a pending
     # call; it must come back to the trampoline unevaluated, be evaluated once there, and the callee must then run as an
     # ordinary application (fresh frame under ITS closure environment)
-    cenv1, cenv2, caller = Frame(None, "closure-env-1"), Frame(None, "closure-env-2"), Frame(None, "caller-env")
-    sp1 = w.scheme_procedure(w.formals(["a"]), [], [w.sym("B1"), w.sym("TAILCALL")])
-    sp2 = w.scheme_procedure(w.formals(["x"]), [], [w.sym("C1")])
-    p1, p2 = w.user(sp1, cenv1), w.user(sp2, cenv2)
-    pend = w.sym("OP2")
-    inner = Enum(0, [pend, [w.sym("X")], Frame(None, "frame-of-turn-1")])
-    inner.name = "Ref"
-    tc = Enum(0, [inner])
-    tc.name = "TailCall"
-    arg2 = Tok("arg", "W1")
-    r = Run(w, follow=[w.asp.name], tail_answers={"TAILCALL": ok(tc)}, epc_answers=[ok([p2, [arg2]])])
-    try:
-        res = r.run(w.ap, [p1, [Tok("arg", "V1")], caller])
-        frames = [e for e in r.events if e[0] == "new_child"]
-        rows.append(("real-body", {"result": res, "frames": [(f[2] is cenv1, f[2] is cenv2) for f in frames],
-                                   "defines": [(e[2], e[3]) for e in r.events if e[0] == "define"],
+    for variant in ("real-body", "real-body/value-definition", "real-body/procedure-definition"):
+        cenv1, cenv2, caller = Frame(None, "closure-env-1"), Frame(None, "closure-env-2"), Frame(None, "caller-env")
+        defs = []
+        if variant.endswith("value-definition"):
+            defs = [("d", w.sym("D"))]
+        elif variant.endswith("procedure-definition"):
+            defs = [("helper", w.lam(w.scheme_procedure(w.formals(["y"]), [], [w.sym("H1")])))]
+        sp1 = w.scheme_procedure(w.formals(["a"]), defs, [w.sym("B1"), w.sym("TAILCALL")])
+        sp2 = w.scheme_procedure(w.formals(["x"]), [], [w.sym("C1")])
+        p1, p2 = w.user(sp1, cenv1), w.user(sp2, cenv2)
+        pend = w.sym("OP2")
+        inner = Enum(0, [pend, [w.sym("X")], Frame(None, "frame-of-turn-1")])
+        inner.name = "Ref"
+        tc = Enum(0, [inner])
+        tc.name = "TailCall"
+        arg2 = Tok("arg", "W1")
+        r = Run(w, follow=[w.asp.name], tail_answers={"TAILCALL": ok(tc)}, epc_answers=[ok([p2, [arg2]])])
+        try:
+            res = r.run(w.ap, [p1, [Tok("arg", "V1")], caller])
+            frames = [e for e in r.events if e[0] == "new_child"]
+            rows.append((variant, {"result": res, "frames": [(f[2] is cenv1, f[2] is cenv2) for f in frames],
+                                   "defines": [(e[2], e[3]) for e in r.events if e[0] == "define" and e[2] not in ("d", "helper")],
                                    "tail_call_evals": [e for e in r.events if e[0] == "eval-tail-call"],
                                    "pending_passed": any(e[0] == "eval-tail-call" and any(x is pend for x in e[1:]) for e in r.events),
                                    "recursive_applies": len([e for e in r.events if e[0] == "apply"]),
                                    "order": [(e[0], e[1] if e[0] in ("eval", "tail") else None) for e in r.events
-                                             if e[0] in ("eval", "tail", "eval-tail-call", "new_child")], "arg2": arg2}))
-    except (absint.Stuck, absint.Loop) as e:
-        rows.append(("real-body", {"stuck": str(e)}))
+                                             if e[0] in ("eval", "tail", "eval-tail-call", "new_child") and not (e[0] == "eval" and e[1] == "D")],
+                                   "arg2": arg2}))
+        except (absint.Stuck, absint.Loop) as e:
+            rows.append((variant, {"stuck": str(e)}))
     # the whole path of one tail call with nothing stubbed but the evaluation of the leaves: body = ((OPX ARGX)) in tail position,
     # OPX evaluates to a second procedure.  Operator and operand are evaluated exactly once each (by whichever of the tail
     # evaluator / the trampoline does it), in the frame of the first application; then the callee runs as an ordinary application.
@@ -1141,9 +1154,9 @@ def rule_trampoline(ctx, rule, aspects):
             ]
             v.row(key, d, checks)
             continue
-        if second == "real-body" and not (set(aspects) & {"rebind", "arity", "env"}):
+        if second.startswith("real-body") and not (set(aspects) & {"rebind", "arity", "env"}):
             continue
-        if second == "real-body":
+        if second.startswith("real-body"):
             checks = [(d["recursive_applies"] == 0, "the trampoline calls apply_procedure recursively for a pending tail call "
                                                     "(the Rust stack grows with every tail call)")]
             if "rebind" in aspects:
